@@ -18,7 +18,7 @@ pyrepseq = CAT.pyrepseq
 
 PROPERTY = "C20"
 RULE = (f"a catalogue of {len(CAT.NAMES)} representative public-API calls from every module (search incl. kdtree with a process pool, "
-        "database objects and the tcrdist stand-in; statistics; pcDelta family incl. seeded maxseqs; neighbour utilities; metrics; "
+        "database objects and the tcrdist stand-in; long-lived metric and database objects created at start-up and re-used between other calls; statistics; pcDelta family incl. seeded maxseqs; neighbour utilities; metrics; "
         "clustering; io; util; entropy; plotting incl. similarity_clustermap with default / caller-supplied cbar_kws / "
         "caller-supplied norm) and calls that raise. Histories: rule-based state machine drawing 2-15 calls per history; every "
         "ordered pair (A, B) of catalogue calls is enumerated as well (all of them in the thorough tier, a seeded sample in "
@@ -34,7 +34,9 @@ ASSUMPTIONS = ["'any sequence of other pyrepseq calls' is explored over a fixed 
 
 REFS = {}
 PROCESS_LOG = []
-STATEFUL = {"hierarchical_default_table", "nn_default_other_content", "symdel_k2_other_content_ndarray", "kdtree_ndarray_other_content",
+STATEFUL = {"persistent_tcr_metrics", "persistent_string_metrics", "persistent_pcDelta_metric", "persistent_symdeldb",
+            "persistent_symdeldb_hamming", "persistent_lookupdb_k2", "persistent_lookupdb_k1", "hierarchical_two_sequences_default", "hierarchical_large_default", "tcr_metric_objects_coexist", "multimerge_inner",
+            "count_arrays", "pc_conditional_weight_array", "hierarchical_default_table", "nn_default_other_content", "symdel_k2_other_content_ndarray", "kdtree_ndarray_other_content",
             "kdtree_series_ncpu2_hamming", "kdtree", "kdtree_ncpu2", "kdtree_hamming_ncpu3", "kdtree_custom", "clustermap_default", "clustermap_cbar_kws", "clustermap_norm",
             "clustermap_single_chain_meta", "hierarchical_default", "tcrdist_default_kwargs", "tcrdist_both", "colors_hls_seeded",
             "seqlogos", "subsample_seeded", "pcDelta_maxseqs_seeded", "downsample_seeded"}
@@ -214,7 +216,7 @@ def machine(tier, rec):
             super().__init__()
             type(self).trace = self.ops = []
 
-        @rule(name=st.sampled_from(CAT.NAMES))
+        @rule(name=st.sampled_from(CAT.LIGHT))
         def call(self, name):
             step(name, list(self.ops))
             self.ops.append(name)
@@ -228,7 +230,11 @@ def machine(tier, rec):
 
 
 def enum_pairs(tier):
-    names = CAT.NAMES
+    names = CAT.LIGHT
+    # heavy calls: as first element only, followed by the calls that share state with them
+    for h in CAT.HEAVY:
+        for b in ("hierarchical_default", "hierarchical_default_table", "hierarchical_kws_strings", "clustermap_default"):
+            yield {"pair": [h, b]}
     if tier == "thorough":
         for a in names:
             for b in names:
